@@ -96,7 +96,7 @@ class C02(HistoryProperty):
         for n in spec["nodes"]:
             if n["k"] == "dataset" and n.get("cache", "default") == "default":
                 n["cache"] = "recording"
-        dg = U.DictGen(rng, cfg)
+        dg = U.DictGen(rng, cfg, no_list_keys=gen.hashable_required_keys(spec))
         dg.MUTATIONS = ["repeat"] * 4 + ["never"] * 3 + ["permute"] * 3 + ["change", "change", "delete", "add", "sibling", "fresh", "template"]
         ops = gen_history(rng, cfg, spec, dictgen=dg)
         # validate() / keys() asked BEFORE an evaluation with the same dictionary: what they have to evaluate on the way (a
